@@ -345,7 +345,7 @@ def build_machine(rec):
     from hypothesis import strategies as st
     from hypothesis.stateful import RuleBasedStateMachine, rule, initialize, precondition
     addr = st.sampled_from(['a1', 'num', 'idx-a1', 'title-num', 'mixed'])
-    value = st.one_of(st.integers(-9, 30), st.sampled_from([2.5, 'txt', True, 0, 1, False, 1.0]))
+    value = st.one_of(st.integers(-9, 30), st.sampled_from([2.5, 'txt', True, 0, 1, False, 1.0, 1, 0, True]))
 
     class M(RuleBasedStateMachine):
         def __init__(self):
@@ -435,7 +435,7 @@ def build_machine(rec):
                     now.update({k: v for k, v, _ in s_['batch']})
             batch = []
             for _ in range(data.draw(st.integers(1, 3))):
-                kind = data.draw(st.sampled_from(['again', 'again', 'cell', 'beyond', 'any']))
+                kind = data.draw(st.sampled_from(['again', 'again', 'again', 'cell', 'cell', 'cell', 'beyond', 'any']))
                 if kind == 'again' and now:
                     k = data.draw(st.sampled_from(sorted(now)))
                 elif kind == 'beyond':
@@ -444,7 +444,7 @@ def build_machine(rec):
                     k = self._key(data)
                 v = data.draw(st.one_of(value, value, value, st.none()))     # None: the cell is given without a value
                 cur = now.get(k, wb['cells'].get(k))
-                if isinstance(cur, (bool, int)) and cur in (0, 1) and data.draw(st.booleans()):
+                if isinstance(cur, (bool, int)) and cur in (0, 1) and data.draw(st.integers(0, 3)) > 0:
                     v = int(cur) if isinstance(cur, bool) else bool(cur)     # equal value, other type
                 batch.append([k, v, data.draw(st.one_of(st.none(), st.none(), st.integers(0, 20)))])
                 now[k] = v
